@@ -20,6 +20,8 @@ RULE = ("case = 3 candidate dimensions, 1-3 constructor specs and a program of <
         "getitem, setitem-zeroing, contract in all documented variants, contract_multi); operand indices are taken modulo "
         "the pool, numbers come from default_rng([payload_seed, op seed]). Non-trivial = >= 3 executed operations of >= 2 "
         "kinds and a real/complex mixture or an empty carrier involved. Distinct = sha1 of the canonical case JSON.")
+# coverage-guided engine (pbt/fuzz.py): executions per process in each tier (16 processes)
+FUZZ = {"quick": 0, "thorough": 6000, "instrument": "pymoto.common.dyadcarrier"}
 ASSUMPTIONS = [
     "vectors, operands and scalars are float64/complex128 (python int/float/complex scalars included); integer-typed "
     "vectors are outside the quantifier (real/complex mixtures) and are not generated",
@@ -34,7 +36,7 @@ ASSUMPTIONS = [
     "the list it iterates over); every other call uses the objects as they are",
     "the value assigned by __setitem__ is a real zero (python/numpy); a complex zero cannot be assigned to a real dense "
     "matrix either",
-    "atheris engine of DESIGN.md is not implemented: Hypothesis only",
+    "thorough tier additionally drives the same strategy/check through atheris (libFuzzer) via pbt/fuzz.py; quick tier is Hypothesis only",
 ]
 
 MAX_DYADS = 40
